@@ -50,7 +50,10 @@ RULE_ADDED = (
               ' a third on the TCPSigner platform. '
               ' '
               'Round 13: clients that send their line and close their writing side at once, the'
-              'n read - also after queueing behind another client. ')
+              'n read - also after queueing behind another client. '
+              ' '
+              'Round 14: on the TCP platforms 3% of the lines are served by a device that takes'
+              ' 9..301 s over every answer. ')
 RULE = RULE + " " + RULE_ADDED.strip()
 ASSUMPTIONS = [
     "simulated device keeps to its protocol (firmware-like chunking, well-formed answers)",
@@ -462,15 +465,23 @@ def run_shard(spec, acc):
             st[v1] = (s, dev)
         return st[v1]
 
+    slow_rng = random.Random(spec["seed"] ^ 0x51)
+
     def feed(cls, v1, line, case):
         s, dev = get_stack(v1)
         dev.mode = MODE_SIGNER
         steps.n = 0
         steps.budget = STEP_BUDGET
+        if not v1 and plat5 != "ledger" and slow_rng.random() < 0.03:
+            # over TCP the transport sets no time limit: now and then the device takes its
+            # time (seconds to minutes of virtual time) over every answer of a request
+            s.bus.slow_cmds = {"*": slow_rng.choice([9.0, 10.5, 11.5, 31.0, 61.0, 301.0])}
+            acc.count("lines_served_by_a_slow_device_over_tcp")
         try:
             out, exc = s.handle_line(line)
         except StepBudgetExceeded as e:
             out, exc = b"", e
+        s.bus.slow_cmds = None
         steps.budget = None
         acc.evaluations += 1
         acc.counters["max_steps"] = max(acc.counters.get("max_steps", 0), steps.n)
